@@ -97,7 +97,8 @@ func Recover(suite suites.Suite, public *share.PubPoly, msg []byte, sigs [][]byt
 		i, err := s.Index()
 
 		if err != nil {
-			return nil, err
+			// too short to carry an index: skipped like any other invalid share
+			continue
 		}
 		if err = bls.Verify(suite, public.Eval(i).V, msg, s.Value()); err != nil {
 			continue
